@@ -543,12 +543,20 @@ func (s *RocksDBStore) FetchSnapshot(w io.WriteCloser, since, until uint64, vali
 		w.Close()
 	}()
 
+	// the write-ahead log may have been purged (TTL, size limit): the first transaction
+	// after `since` has to be the very next one, otherwise the requester would be left
+	// with a hole that the version metadata alone cannot always reveal
+	next := since + 1
 	for ; it.Valid(); it.Next() {
 		batch, seqNum := it.GetBatch()
 		defer batch.Destroy()
 		if seqNum <= since {
 			continue
 		}
+		if next != 0 && seqNum != next {
+			return fmt.Errorf("Gap found in the write-ahead log: transaction %d requested, %d is the first one available", next, seqNum)
+		}
+		next = 0
 		if seqNum > until {
 			break
 		}
@@ -568,6 +576,10 @@ func (s *RocksDBStore) FetchSnapshot(w io.WriteCloser, since, until uint64, vali
 		if err != nil {
 			return err
 		}
+	}
+
+	if next != 0 && since < until {
+		return fmt.Errorf("Gap found in the write-ahead log: transaction %d requested, none available", next)
 	}
 
 	return nil
